@@ -79,8 +79,16 @@ def rnd_mol(rng, n, aromatic_p=0.3, charged_p=0.1):
     return g
 
 
-def atom_str(d):
+WEIGHT_TEXTS = ['0', '0.5', 'w=2', 'w=0', '0.0', '1', 'w=0.25;tag=t']
+
+
+def atom_str(d, anno=None):
     el = d['element']
+    if anno:
+        h = d['h'] if (d['charge'] != 0 or (d['aromatic'] and el != 'C')) else 0
+        hs = '' if h == 0 else ('H' if h == 1 else 'H%d' % h)
+        cs = '' if d['charge'] == 0 else ('+' if d['charge'] > 0 else '-')
+        return '[%s%s%s;%s]' % (el.lower() if d['aromatic'] else el, hs, cs, anno)
     if d['charge'] == 0:
         return el.lower() if d['aromatic'] else el
     h = d['h']
@@ -89,7 +97,7 @@ def atom_str(d):
     return '[%s%s%s]' % (el.lower() if d['aromatic'] else el, hs, cs)
 
 
-def render_frag(rng, g, nodes, desc, atom_text=None):
+def render_frag(rng, g, nodes, desc, atom_text=None, anno_p=0.0):
     """render the induced subgraph on `nodes` as SMILES with descriptors desc[node] = [(text, order)];
     random start atom, random neighbour order, random ring digits, descriptors before or after ring digits"""
     sub = g.subgraph(nodes)
@@ -127,7 +135,8 @@ def render_frag(rng, g, nodes, desc, atom_text=None):
     opened = set()
 
     def emit(u):
-        s = atom_text[u] if atom_text else atom_str(g.nodes[u])
+        anno = rng.choice(WEIGHT_TEXTS) if (anno_p and rng.random() < anno_p) else None
+        s = atom_text[u] if atom_text else atom_str(g.nodes[u], anno)
         rs = ''
         for e in ring_edges:
             if u in e:
@@ -138,18 +147,31 @@ def render_frag(rng, g, nodes, desc, atom_text=None):
                 sym = SYM[o] if (first and o in (2, 3)) else ''
                 rs += sym + mark(rid[e])
         d = dstr(u)
-        if d and rs and rng.random() < 0.5:
-            s += d + rs
-        else:
-            s += rs + d
         kids = tree[u]
+        # descriptors directly after the atom (before or after its ring digits) or after some of its branches
+        late = len(kids) > 0 and bool(d) and rng.random() < 0.3
+        bracket_all = late and rng.random() < 0.4
+        nbr = len(kids) if bracket_all else len(kids) - 1
+        after = rng.randint(1, nbr) if (late and nbr >= 1) else None
+        if after is None:
+            if d and rs and rng.random() < 0.5:
+                s += d + rs
+            else:
+                s += rs + d
+        else:
+            s += rs
+        if anno_p and not atom_text and g.nodes[u].get('h', 0) >= 1 and g.nodes[u]['charge'] == 0 and rng.random() < anno_p / 2:
+            # one of the atom's hydrogens written out with its own weight
+            s += '([H;%s])' % rng.choice(['0', '0.5', 'w=0', '2'])
         for i, v in enumerate(kids):
             o = g.edges[u, v]['order']
             sym = SYM[o]
             if o == 1 and g.nodes[u]['aromatic'] and g.nodes[v]['aromatic']:
                 sym = '-'
             body = sym + emit(v)
-            s += '(' + body + ')' if i < len(kids) - 1 else body
+            s += '(' + body + ')' if i < nbr else body
+            if after is not None and i + 1 == after:
+                s += d
         return s
     return emit(start)
 
@@ -239,7 +261,7 @@ def render_base(rng, base, names, virtual=0):
     return '{' + out + '}', order_of_appearance
 
 
-def cut_description(rng, g, nfrag, kinds=('$', '><'), share_p=0.0, label_p=1.0):
+def cut_description(rng, g, nfrag, kinds=('$', '><'), share_p=0.0, label_p=1.0, anno_p=0.0):
     """fragment `g` into `nfrag` connected fragments; every cut bond becomes a uniquely labelled pair
     of complementary descriptors carrying the bond's order (1 for aromatic bonds), or — with
     probability share_p — is replaced by sharing its end atom (squash operator)."""
@@ -253,13 +275,16 @@ def cut_description(rng, g, nfrag, kinds=('$', '><'), share_p=0.0, label_p=1.0):
         members[v].append(k)
     lab = 0
     nshared = 0
+    shared_kinds = []
     for a, b, o in list(g.edges(data='order')):
         if part[a] == part[b]:
             continue
+        if rng.random() < 0.5:
+            a, b = b, a               # which end is copied into the other fragment when the bond is replaced by sharing
         lab += 1
         L = 'L%d' % lab if rng.random() < label_p else ''
         oo = 1 if o == 1.5 else o
-        if rng.random() < share_p and o != 1.5:
+        if rng.random() < share_p:
             # fragment of `a` gets a copy b' of b, bonded to a; b' and b carry the '!' pair
             bp = len(ext)
             ext.add_node(bp, **g.nodes[b])
@@ -270,6 +295,10 @@ def cut_description(rng, g, nfrag, kinds=('$', '><'), share_p=0.0, label_p=1.0):
             desc[bp].append(('!' + L, 1))
             desc[b].append(('!' + L, 1))
             nshared += 1
+            if g.nodes[b]['aromatic']:
+                shared_kinds.append('aromatic-ring-bond' if o == 1.5 else 'aromatic-substituent-bond')
+            else:
+                shared_kinds.append('aliphatic')
         elif rng.choice(kinds) == '$':
             desc[a].append(('$' + L, oo))
             desc[b].append(('$' + L, oo))
@@ -287,7 +316,8 @@ def cut_description(rng, g, nfrag, kinds=('$', '><'), share_p=0.0, label_p=1.0):
     for i in range(nfrag):
         # cut bonds replaced by sharing keep the edge a-b' inside the fragment of a
         sub_nodes = members[i]
-        frag_text[i] = render_frag(rng, ext.subgraph(sub_nodes).copy(), sub_nodes, desc)
+        frag_text[i] = render_frag(rng, ext.subgraph(sub_nodes).copy(), sub_nodes, desc, anno_p=anno_p)
+    cut_description.last_shared_kinds = shared_kinds
     return base, frag_text, part, nshared
 
 
@@ -311,12 +341,12 @@ def graph_to_json(g):
 
 
 def cut_case(rng, nmin=3, nmax=12, share_p=0.0, virtual=0, aromatic_p=0.25, label_p=1.0,
-             kinds=('$', '><')):
+             kinds=('$', '><'), anno_p=0.0):
     """one C01-style case: a molecule, the uncut description and a cut description"""
     while True:
         g = rnd_mol(rng, rng.randint(nmin, nmax), aromatic_p=aromatic_p)
         nf = rng.randint(1, min(5, len(g)))
-        base, frag_text, part, nshared = cut_description(rng, g, nf, kinds=kinds, share_p=share_p, label_p=label_p)
+        base, frag_text, part, nshared = cut_description(rng, g, nf, kinds=kinds, share_p=share_p, label_p=label_p, anno_p=anno_p)
         if base.number_of_edges() and max(o for *_, o in base.edges(data='order')) > 4:
             continue
         break
@@ -324,7 +354,7 @@ def cut_case(rng, nmin=3, nmax=12, share_p=0.0, virtual=0, aromatic_p=0.25, labe
     base_str, appearance = render_base(rng, base, names, virtual=virtual)
     frags = ','.join('#F%d=%s' % (i, frag_text[i]) for i in rng.sample(range(nf), nf))
     whole = '{[#M]}.{#M=' + render_frag(rng, g, list(g), {}) + '}'
-    return {'kind': 'cut', 's': base_str + '.{' + frags + '}', 'whole': whole,
+    return {'kind': 'cut', 'shared_kinds': sorted(set(cut_description.last_shared_kinds)), 's': base_str + '.{' + frags + '}', 'whole': whole,
             'nfrag': nf, 'nshared': nshared, 'natoms': len(g), 'virtual': virtual,
             'mol': {'n': [[k, d['element'], d['charge'], d['h'], d['aromatic']] for k, d in g.nodes(data=True)],
                     'e': [[a, b, o] for a, b, o in g.edges(data='order')]},
@@ -470,6 +500,8 @@ def star_share_case(rng):
     for a, b, o in list(g.edges(data='order')):
         if part[a] == part[b]:
             continue
+        if rng.random() < 0.5:
+            a, b = b, a               # which end is copied into the other fragment when the bond is replaced by sharing
         lab += 1
         c, arm_atom = (a, b) if a == 0 else (b, a)
         cp = len(ext)
@@ -500,7 +532,106 @@ def star_share_case(rng):
         base_str = '{' + body + '}'
     frags = ','.join('#F%d=%s' % (i, frag_text[i]) for i in rng.sample(range(nf), nf))
     whole = '{[#M]}.{#M=' + render_frag(rng, g, list(g), {}) + '}'
-    return {'kind': 'cut', 's': base_str + '.{' + frags + '}', 'whole': whole, 'nfrag': nf, 'nshared': k,
+    return {'kind': 'cut', 'shared_kinds': ['aliphatic'], 's': base_str + '.{' + frags + '}', 'whole': whole, 'nfrag': nf, 'nshared': k,
             'natoms': len(g), 'virtual': 0, 'star': True,
+            'mol': {'n': [[n, d['element'], d['charge'], d['h'], d['aromatic']] for n, d in g.nodes(data=True)],
+                    'e': [[a, b, o] for a, b, o in g.edges(data='order')]}}
+
+
+def clique_share_case(rng):
+    """one atom shared by three mutually connected fragments (every fragment holds a copy carrying two
+    '!' descriptors, the base graph is a triangle, so the third merge is redundant), followed by
+    further fragments attached by ordinary sharing later in the base graph"""
+    g = nx.Graph()
+    g.add_node(0, element='C', charge=0, aromatic=False, h=1)
+    part = {}
+    arms = []
+    for arm in range(3):
+        prev = 0
+        atoms = []
+        for j in range(rng.randint(1, 3)):
+            i = len(g)
+            g.add_node(i, element=rng.choice(['C', 'C', 'O', 'N', 'S']) if j else 'C', charge=0, aromatic=False, h=0)
+            g.add_edge(prev, i, order=1)
+            part[i] = arm
+            atoms.append(i)
+            prev = i
+        arms.append(atoms)
+    ntail = rng.randint(1, 2)
+    tails = []
+    for t in range(ntail):
+        arm = rng.randrange(3)
+        a = arms[arm][-1]
+        if g.nodes[a]['element'] not in ('C', 'N', 'S') or any(x[0] == a for x in tails):
+            continue
+        i = len(g)
+        g.add_node(i, element='C', charge=0, aromatic=False, h=0)
+        g.add_edge(a, i, order=1)
+        part[i] = 3 + len(tails)
+        tails.append((a, i, arm))
+    val = dict(VAL)
+    for i in g:
+        if i:
+            g.nodes[i]['h'] = max(0, val[g.nodes[i]['element']] - sum(o for *_, o in g.edges(i, data='order')))
+    nf = 3 + len(tails)
+    ext = g.copy()
+    ext.remove_node(0)
+    members = collections.defaultdict(list)
+    for n, f in part.items():
+        members[f].append(n)
+    desc = collections.defaultdict(list)
+    copies = []
+    for arm in range(3):
+        cp = max(ext.nodes) + 1
+        ext.add_node(cp, **g.nodes[0])
+        ext.nodes[cp]['h'] = 0
+        ext.add_edge(arms[arm][0], cp, order=1)
+        members[arm].append(cp)
+        copies.append(cp)
+    labelled = rng.random() < 0.5
+    for i, j in ((0, 1), (1, 2), (0, 2)):
+        L = 'K%d%d' % (i, j) if labelled else ''
+        desc[copies[i]].append(('!' + L, 1))
+        desc[copies[j]].append(('!' + L, 1))
+    base = nx.Graph()
+    base.add_nodes_from(range(nf))
+    for i, j in ((0, 1), (1, 2), (0, 2)):
+        base.add_edge(i, j, order=1)
+    for k, (a, i, arm) in enumerate(tails):
+        # the tail fragment gets a copy of the arm atom a, shared with it
+        cp = max(ext.nodes) + 1
+        ext.add_node(cp, **g.nodes[a])
+        ext.nodes[cp]['h'] = 0
+        ext.add_edge(i, cp, order=1)
+        members[3 + k].append(cp)
+        ext.remove_edge(a, i)
+        L = 'T%d' % k
+        desc[cp].append(('!' + L, 1))
+        desc[a].append(('!' + L, 1))
+        base.add_edge(arm, 3 + k, order=1)
+    for k in desc:
+        rng.shuffle(desc[k])
+    frag_text = {i: render_frag(rng, ext.subgraph(members[i]).copy(), members[i], desc) for i in range(nf)}
+    names = {i: 'F%d' % i for i in range(nf)}
+    # the triangle first (so that its redundant edge precedes the tails' edges), in a random rotation
+    order = [0, 1, 2]
+    rng.shuffle(order)
+    body = '[#F%d]1[#F%d][#F%d]1' % tuple(order)
+    for k, (a, i, arm) in enumerate(tails):
+        if arm == order[2]:
+            body += '[#F%d]' % (3 + k) if k == len(tails) - 1 else '([#F%d])' % (3 + k)
+    # tails on other arms: written as branches right after their arm would change the edge order; use ring bonds instead
+    rid = 2
+    extra = ''
+    for k, (a, i, arm) in enumerate(tails):
+        if arm != order[2]:
+            body = body.replace('[#F%d]' % arm, '[#F%d]%d' % (arm, rid), 1)
+            extra += '.[#F%d]%d' % (3 + k, rid)
+            rid += 1
+    base_str = '{' + body + extra + '}'
+    frags = ','.join('#F%d=%s' % (i, frag_text[i]) for i in rng.sample(range(nf), nf))
+    whole = '{[#M]}.{#M=' + render_frag(rng, g, list(g), {}) + '}'
+    return {'kind': 'cut', 'shared_kinds': ['aliphatic'], 's': base_str + '.{' + frags + '}', 'whole': whole, 'nfrag': nf,
+            'nshared': 2 + len(tails), 'natoms': len(g), 'virtual': 0, 'clique': True,
             'mol': {'n': [[n, d['element'], d['charge'], d['h'], d['aromatic']] for n, d in g.nodes(data=True)],
                     'e': [[a, b, o] for a, b, o in g.edges(data='order')]}}
